@@ -315,8 +315,8 @@ func hasPrefix(p, pre []string) bool {
 type allocDef struct {
 	instr  ssa.Instruction
 	path   []string
-	kind   string      // "zero" | "store" | "havoc" | "pwrite"
-	val    ssa.Value   // store: stored value; pwrite: value inside callee
+	kind   string        // "zero" | "store" | "havoc" | "pwrite"
+	val    ssa.Value     // store: stored value; pwrite: value inside callee
 	callee *ssa.Function // pwrite
 }
 
